@@ -472,7 +472,7 @@ TIE_FILES = {   # tie file -> functions of pyerrors/obs.py it needs regenerated
     "Tie_init.v": ["obs_init_idl_from_list", "obs_init_validation"],
     "Tie_sortcorr.v": ["sort_corr_mapping"],
     "Tie_window.v": ["gamma_method_window_search", "gamma_method_tauexp_search", "gamma_method_window_tauint", "gamma_method_window_dvalue_sq"],
-    "Tie_tauint.v": ["gamma_method_normalise", "gamma_method_rho", "gamma_method_n_tauint"],
+    "Tie_tauint.v": ["gamma_method_normalise", "gamma_method_rho", "gamma_method_n_tauint", "gamma_method_dtauint_radicand", "gamma_method_dtauint_factor"],
     "Tie_corr.v": ["corr_thin", "corr_reverse", "corr_roll", "corr_symmetric", "corr_anti_symmetric", "corr_add_corr", "corr_mul_corr", "corr_add_scalar", "corr_mul_scalar", "corr_fit_xs", "corr_fit_ys"],
     "Tie_gamma.v": ["_expand_deltas", "_calc_gamma"],      # imports Tie_expand_deltas: list that file first
 }
